@@ -20,7 +20,7 @@ RULE = ("cases are strings: (tokens) every sequence of <=4 (thorough <=5) tokens
         "exhaustively; (trunc) every prefix and every one-character deletion of one document "
         "per writer and per examples/ file; (text) Hypothesis text mixing markers, digits, line "
         "breaks and printable Unicode, also with byte order marks in front; (own) outputs of all writers on generated caption sets (integer or float times) "
-        "whose text avoids the other formats' markers; (atheris) inputs kept by coverage-guided "
+        "whose text avoids the other formats' markers (a line may be cut into adjacent text nodes at any character); (atheris) inputs kept by coverage-guided "
         "libFuzzer campaigns (fresh corpus, oracle inside the target), re-judged here. Non-trivial: the string has at most two "
         "lines, or is a truncated document, or at least one reader's detect() accepts it; for "
         "'own': every case (writer output with metacharacter text). Distinct = distinct JSON. "
@@ -246,7 +246,7 @@ def own_strategy(tier):
         else:
             # any duration, except that a cue lying wholly inside MicroDVD frame 0 would be
             # written {0}{0}..., which the format reserves for the frame-rate declaration
-            s = draw(gen.simple_set(ln, 1, 3, min_dur=0, empty_lines=False))
+            s = draw(gen.simple_set(ln, 1, 3, min_dur=0, empty_lines=False, split_anywhere=True))
             if draw(st.integers(0, 3)) == 0:
                 # cues shorter than a frame, early in the file ({1}{1}, {1}{2}, ...)
                 t0 = draw(st.integers(0, 400)) * 1000
@@ -268,6 +268,11 @@ def own_strategy(tier):
                 for c in s["langs"][0]["cues"]:
                     if c["end"] < 40000:
                         c["end"] = 40000 + c["end"] % 1000
+        if w == "webvtt" and draw(st.integers(0, 3)) == 0:
+            # an arrow formed by two or three adjacent text nodes (the reader of the format must
+            # still be able to read what the writer makes of it)
+            cut = draw(st.sampled_from(["-|->", "--|>", "-|-|>"]))
+            s["langs"][0]["cues"][0]["nodes"] = [{"t": p_} for p_ in ("a " + cut + " b").split("|")]
         if draw(st.integers(0, 3)) == 0:
             # times as the SCC reader (or arithmetic on times) leaves them: floats, whole or not
             for c in s["langs"][0]["cues"]:
@@ -286,7 +291,7 @@ def _has_marker(text):
 def check_own(case, rec):
     w = case["writer"]
     wcls, rcls = WRITERS[w]
-    texts = [n["t"] for c in case["set"]["langs"][0]["cues"] for n in c["nodes"] if "t" in n]
+    texts = ["".join(n["t"] for n in c["nodes"] if "t" in n) for c in case["set"]["langs"][0]["cues"]]
     if any(_has_marker(t) for t in texts):
         rec.label("skipped:marker-in-text")
         return
